@@ -20,7 +20,24 @@ def _cross_loops():
     return out
 
 
-CORPUS = _cross_loops() + [
+def _mutating_each():
+    """FOR EACH over a list that its own body grows, shrinks or replaces (directly, through an alias, through a procedure, in a
+    nested loop): the elements visited are those the list had at its first len positions when the loop started, read as they are
+    when reached - growth during the loop adds no iterations, shrinking ends it early"""
+    grow = ["APPEND(l, x * 10)", "INSERT(l, 1, x * 10)", "INSERT(l, LENGTH(l), 0)", "APPEND(m, x + 0.5)", "grow(l, x)",
+            "APPEND(l, x)\nAPPEND(l, x)", "DISPLAY(REMOVE(l, 1))\nAPPEND(l, 7)\nAPPEND(l, 8)", "l <- l + [x]", "l[1] <- x * 100\nAPPEND(l, 5)"]
+    out = []
+    for g in grow:
+        for guard in ("IF (LENGTH(l) < 7) {\n%s\n}", "IF (x < 3) {\n%s\n}", "IF (n < 2) {\n%s\n}"):
+            out.append("PROCEDURE grow(q, v) {\nAPPEND(q, v * 10)\n}\nl <- [1, 2, 3]\nm <- l\nn <- 0\nFOR EACH x IN l {\nDISPLAY(x)\n" +
+                       (guard % g) + "\nn <- n + 1\n}\nDISPLAY(n)\nDISPLAY(l)\nDISPLAY(m)\n")
+    out.append("l <- [1, 2]\nn <- 0\nFOR EACH x IN l {\nFOR EACH y IN l {\nn <- n + 1\nIF (LENGTH(l) < 5) {\nAPPEND(l, n)\n}\n}\n}\nDISPLAY(n)\nDISPLAY(l)\n")
+    out.append("l <- [1, 2, 3, 4]\nFOR EACH x IN l {\nDISPLAY(x)\nDISPLAY(REMOVE(l, LENGTH(l)))\n}\nDISPLAY(l)\n")
+    out.append("l <- [1, 2, 3]\nFOR EACH x IN l {\nDISPLAY(x)\nIF (x == 1) {\nDISPLAY(REMOVE(l, 1))\nAPPEND(l, 9)\n}\n}\nDISPLAY(l)\n")
+    return out
+
+
+CORPUS = _cross_loops() + _mutating_each() + [
     "REPEAT 2.9 TIMES { DISPLAY(1) }\nREPEAT -1 TIMES { DISPLAY(2) }\nREPEAT 0.5 TIMES { DISPLAY(3) }\n",
     "i <- 0\nREPEAT UNTIL (i >= 3) { i <- i + 1\nIF (i == 2) { CONTINUE }\nDISPLAY(i) }\n",
     "FOR EACH x IN [1,2,3] { IF (x == 2) { BREAK }\nDISPLAY(x) }\nDISPLAY(x)\n",
@@ -61,7 +78,8 @@ class PROP(PropCheck):
     ]
     rule = ("random control skeletons: IF / ELSE IF / ELSE, REPEAT TIMES (counts 0,1,2,3,-1,2.9,0.5,4 or computed), REPEAT UNTIL driven by "
             "counters, FOR EACH over lists, strings, literals and concatenations, BREAK / CONTINUE guarded and unguarded at every statement "
-            "position, nesting to depth 3 (quick) / 5 (thorough), a DISPLAY trace in every block position, loops inside procedures; each "
+            "position, nesting to depth 3 (quick) / 5 (thorough), a DISPLAY trace in every block position, loops inside procedures; a fixed "
+            "family of FOR EACH loops whose body grows / shrinks / replaces the iterated list (directly, by alias, by procedure); each "
             "program is run by the implementation, by the implementation model and by the reference semantics; compared: output bytes "
             "and ending. non-trivial = distinct program containing at least one loop or IF that reaches the evaluator")
 
